@@ -15,6 +15,29 @@ from translate import c24 as tr
 H = bytes.fromhex
 
 
+CASE_MAPPINGS = {b"Content-Md5": b"Content-MD5", b"Dnt": b"DNT", b"Etag": b"ETag", b"P3p": b"P3P", b"Te": b"TE",
+                 b"Www-Authenticate": b"WWW-Authenticate", b"X-Xss-Protection": b"X-XSS-Protection"}
+
+
+def canon_name(name: bytes) -> bytes:
+    """Http-Header-Case, as Headers stores names (the harness's own statement of it)"""
+    r = b"-".join(w.capitalize() for w in name.split(b"-"))
+    return CASE_MAPPINGS.get(r, r)
+
+
+def canon_headers(case):
+    """the caller's header set as Headers.getAllRawHeaders() must present it: [(canonical name, [values])]"""
+    return [(canon_name(H(n)), [H(v) for v in vs]) for n, vs in case["headers"]]
+
+
+def connection_options(values):
+    """the connection options of a list of Connection field values (RFC 9110 7.6.1), lower-cased, in order"""
+    out = []
+    for v in values:
+        out += [t.strip(b" \t").lower() for t in v.split(b",") if t.strip(b" \t")]
+    return out
+
+
 def effective_order(b):
     """indices of the producer ops in the order their effects take place: a Deferred fired inside
     startProducing runs its callbacks only once startProducing has returned it, i.e. after every write
@@ -64,7 +87,7 @@ def impl(case) -> str:
     headers = Headers()
     for n, vs in given:
         headers.setRawHeaders(n, vs)
-    if [(n, list(vs)) for n, vs in headers.getAllRawHeaders()] != given:
+    if [(n, list(vs)) for n, vs in headers.getAllRawHeaders()] != canon_headers(case):
         return "GENERATOR-HEADERS-NOT-CANONICAL"
 
     marks: dict[int, str] = {}
@@ -245,9 +268,9 @@ def _expected_wire_headers(case):
         out.append((b"Transfer-Encoding", b"chunked"))
     else:
         out.append((b"Content-Length", str(b["length"]).encode()))
-    for n, vs in case["headers"]:
+    for n, vs in canon_headers(case):
         for v in vs:
-            out.append((H(n), H(v).strip(b" \t")))
+            out.append((n, v.strip(b" \t")))
     return out
 
 
@@ -262,7 +285,7 @@ def _h11_clean(case) -> bool:
 
 def oracle(case, obs):
     method, uri = H(case["method"]), H(case["uri"])
-    nhost = sum(len(vs) for n, vs in case["headers"] if H(n) == b"Host")
+    nhost = sum(len(vs) for n, vs in canon_headers(case) if n == b"Host")
     bad_m, bad_u = not TOKEN_RE.match(method), not TARGET_RE.match(uri)
     if obs.startswith("refused:"):
         if "+" in obs:
@@ -281,7 +304,7 @@ def oracle(case, obs):
         return Failure(case, f"request-target {uri!r} contains an invalid byte but was written", "invalid-target-written")
     if nhost != 1:
         return Failure(case, f"{nhost} Host values but the request was written", "host-count-written")
-    user_framing = any(H(n).lower() in FRAMING for n, vs in case["headers"] if vs)
+    user_framing = any(n.lower() in FRAMING for n, vs in canon_headers(case) if vs)
     # --- the head parses back ---------------------------------------------------------------
     try:
         m, t, hs, rest = ref_parse_head(out)
@@ -289,7 +312,17 @@ def oracle(case, obs):
         return Failure(case, f"written bytes do not parse as a request head ({e})", "head-unparsable")
     if (m, t) != (method, uri):
         return Failure(case, f"request line parses as {m!r} {t!r}", "request-line-differs")
-    if hs != _expected_wire_headers(case):
+    # the caller's header set is on the wire: every field other than Connection as the same (name, value) lines in the
+    # same order; for Connection the connection options (a recipient reads the field as one comma-separated list):
+    # every option of every caller value, plus `close` when the request is not persistent
+    want = _expected_wire_headers(case)
+    not_conn = lambda l: [(n.lower(), v) for n, v in l if n.lower() != b"connection"]
+    conn = lambda l: connection_options([v for n, v in l if n.lower() == b"connection"])
+    if set(conn(hs)) != set(conn(want)):
+        lost = [t for t in conn(want) if t not in conn(hs)]
+        return Failure(case, f"connection options on the wire {conn(hs)!r}, the caller's header set (+close unless "
+                       f"persistent) has {conn(want)!r}", "connection-options-lost" if lost else "connection-options-added")
+    if not_conn(hs) != not_conn(want):
         return Failure(case, f"field section parses as {hs!r}", "headers-differ")
     b = case["body"]
     ops = [] if b is None else effective_ops(b)
@@ -374,8 +407,10 @@ def oracle(case, obs):
             except Exception as e:  # h11.RemoteProtocolError
                 return Failure(case, f"h11 rejects the request: {e}", "h11-rejects")
             want_h = [(n.lower(), v) for n, v in _expected_wire_headers(case)]
+            got_h = [(bytes(n), bytes(v)) for n, v in (req.headers if req is not None else [])]
             if req is None or not done or (req.method, req.target) != (method, uri) or \
-                    [(bytes(n), bytes(v)) for n, v in req.headers] != want_h or hbody != want_body or trailing:
+                    not_conn(got_h) != not_conn(want_h) or set(conn(got_h)) != set(conn(want_h)) or \
+                    hbody != want_body or trailing:
                 return Failure(case, "h11 parses the request differently", "h11-differs")
     return None
 
@@ -401,11 +436,30 @@ def _value(rng):
     return v
 
 
+CONN_VALUES = [b"Upgrade", b"HTTP2-Settings", b"keep-alive", b"Upgrade, HTTP2-Settings", b"TE", b"close", b"X-Hop",
+               b"x-hop ,  TE", b"Keep-Alive,Upgrade"]
+
+
+def _raw_name(rng, n: bytes) -> bytes:
+    """a caller may spell a header name in any case; Headers canonicalises it"""
+    k = rng.random()
+    return n if k < 0.6 else n.lower() if k < 0.8 else n.upper() if k < 0.9 else n.swapcase()
+
+
+def _connection_header(rng, nvals=None):
+    nvals = rng.choice([1, 2, 2, 3]) if nvals is None else nvals
+    return [_raw_name(rng, b"Connection").hex(), [rng.choice(CONN_VALUES).hex() for _ in range(nvals)]]
+
+
 def _headers(rng, host="one"):
     hs = []
     names = rng.sample(NAMES, rng.choice([0, 0, 1, 2, 3]))
     for n in names:
-        hs.append([n.hex(), [_value(rng).hex() for _ in range(rng.choice([1, 1, 1, 2, 0]))]])
+        hs.append([_raw_name(rng, n).hex(), [_value(rng).hex() for _ in range(rng.choice([1, 1, 1, 2, 2, 3, 4, 0]))]])
+    if rng.random() < 0.25:
+        hs.insert(rng.randrange(len(hs) + 1), _connection_header(rng))
+        if rng.random() < 0.5:
+            hs.append([_raw_name(rng, b"Upgrade").hex(), [b"h2c".hex()]])
     hv = {"one": [b"example.com"], "none": None, "empty": [], "two": [b"a", b"b"]}[host]
     if host == "one" and rng.random() < 0.3:
         hv = [rng.choice([b"h", b"[::1]:8080", b"example.com:80"])]
@@ -520,6 +574,22 @@ def gen(rng, tier):
         d = _data(rng, n)
         cases.append(_mk(rng, method=b"POST", uri=b"/u", body={"length": None, "ops": [["w", d.hex()], ["f"]], "sync": 1}))
         cases.append(_mk(rng, method=b"POST", uri=b"/u", body={"length": n, "ops": [["w", d.hex()], ["f"]], "sync": 0}))
+    # caller-supplied Connection headers: 0-3 separate values (some of them comma lists) x persistent or not x every
+    # kind of body; the options of every value must reach the wire
+    for nvals in (0, 1, 2, 3):
+        for persistent in (True, False):
+            for bodykind in ("none", "known", "unknown"):
+                for _ in range(1 if not big else 6):
+                    hs = [[b"Host".hex(), [b"example.com".hex()]]]
+                    hs.insert(rng.randrange(2), _connection_header(rng, nvals))
+                    if rng.random() < 0.5:
+                        hs.append([b"Http2-Settings".hex(), [b"AAMAAABkAAQAAP__".hex()]])
+                    body = None if bodykind == "none" else \
+                        {"length": 5 if bodykind == "known" else None, "ops": [["w", b"hello".hex()], ["f"]],
+                         "sync": rng.randrange(3)}
+                    c = _mk(rng, method=rng.choice([b"GET", b"POST"]), uri=b"/res?q=1", late=False, headers=hs, body=body)
+                    c["persistent"] = persistent
+                    cases.append(c)
     # very large single writes at the multiples of 64 KiB (and one either side): oracle-only in the quick tier (the
     # bytes go through the reference request parser and h11, not through vm_compute)
     for k in (1, 2, 3):
@@ -589,8 +659,8 @@ def to_coq(case):
         body = f"(Unknown {coq_list(map(op, effective_ops(b)), 'pop')})"
     else:
         body = f"(Known {coq_N(b['length'])} {coq_list(map(op, effective_ops(b)), 'pop')})"
-    hs = coq_list((f"({coq_bytes(H(n))}, {coq_list((coq_bytes(H(v)) for v in vs), '(list N)')})"
-                   for n, vs in case["headers"]), "(list N * list (list N))%type")
+    hs = coq_list((f"({coq_bytes(n)}, {coq_list((coq_bytes(v) for v in vs), '(list N)')})"
+                   for n, vs in canon_headers(case)), "(list N * list (list N))%type")
     return (f"(mkReq {coq_bytes(H(case['method']))} {coq_bytes(H(case['uri']))} {coq_bool(case['persistent'])} "
             f"{hs} {body} {coq_bool(case['late'])})")
 
@@ -598,8 +668,11 @@ def to_coq(case):
 def shrink(case):
     hs = case["headers"]
     for i in range(len(hs)):
-        if H(hs[i][0]) != b"Host":
+        if canon_name(H(hs[i][0])) != b"Host":
             yield {**case, "headers": hs[:i] + hs[i + 1:]}
+        if len(hs[i][1]) > 1 and canon_name(H(hs[i][0])) != b"Host":
+            for j in range(len(hs[i][1])):
+                yield {**case, "headers": hs[:i] + [[hs[i][0], hs[i][1][:j] + hs[i][1][j + 1:]]] + hs[i + 1:]}
     b = case["body"]
     if b is not None:
         ops = b["ops"]
